@@ -3,6 +3,7 @@ package interp
 import (
 	"fmt"
 	"go/types"
+	"strconv"
 	"strings"
 
 	"golang.org/x/tools/go/ssa"
@@ -305,6 +306,12 @@ func (act *activation) call(a *alt, ins ssa.Instruction, c *ssa.CallCommon, defe
 				// keep the callee's error term when it says something (sentinel / wrap)
 				if ns == nonNil && !T.Opaque(rt) && e.nilness(nil, rt) == nonNil {
 					vals[j] = rt
+				} else if ns == unknownNil && !T.Opaque(rt) && e.isErrCall(rt) {
+					// the callee forwards the error of an inner call (tail call):
+					// keep the inner term as the value and remember that this
+					// call's outcome is that error's outcome
+					vals[j] = rt
+					n.atoms = n.atoms.Add(T.Mk("errvia", ct, rt))
 				} else {
 					vals[j] = structured
 				}
@@ -314,6 +321,18 @@ func (act *activation) call(a *alt, ins ssa.Instruction, c *ssa.CallCommon, defe
 				vals[j] = rt
 			default:
 				vals[j] = structured
+			}
+			// a boolean result known on this path class becomes a fact about the call
+			if isBool(sigRes.At(j).Type()) && (rt == e.trueT || rt == e.falseT) {
+				op := "T"
+				if rt == e.falseT {
+					op = "F"
+				}
+				n.atoms = n.atoms.Add(T.Mk(op, structured))
+			} else if isBool(sigRes.At(j).Type()) && rt != 0 && vals[j] == rt && vals[j] != structured {
+				// a boolean expression returned as is: when the caller later
+				// learns its value, the call's outcome is learnt with it
+				n.atoms = n.atoms.Add(T.Mk("boolvia", structured, rt))
 			}
 			if isErr {
 				switch ns {
@@ -346,6 +365,18 @@ func (act *activation) builtin(a *alt, ins ssa.Instruction, b *ssa.Builtin, args
 	switch b.Name() {
 	case "len", "cap", "min", "max", "real", "imag", "complex":
 		t = T.Mk(b.Name(), args...)
+		if (b.Name() == "len" || b.Name() == "cap") && len(args) == 1 {
+			// constant folding keeps infeasible paths out (len(nil) == 0)
+			if args[0] == e.nilT {
+				t = T.Mk("0")
+			} else if op := T.Op(args[0]); len(op) > 1 && op[0] == '"' && b.Name() == "len" {
+				if s, err := strconv.Unquote(op); err == nil {
+					t = T.Mk(strconv.Itoa(len(s)))
+				}
+			} else if op == "arr" {
+				t = T.Mk(strconv.Itoa(len(T.Args(args[0]))))
+			}
+		}
 	case "append":
 		if len(args) == 2 {
 			t = T.Mk("append", args[0], args[1])
